@@ -7,7 +7,9 @@ from .harness import EOF, TIMEOUT
 from .world import SimHang, HarnessError
 
 ENCODINGS = ['utf-8', 'utf-8', 'utf-16', 'utf-16-le', 'utf-16-be', 'utf-32', 'latin-1', 'cp437',
-             'shift_jis', 'euc_jp', 'gb18030', 'utf-8-sig', 'cp1252']
+             'shift_jis', 'euc_jp', 'gb18030', 'utf-8-sig', 'cp1252',
+             # stateful 7-bit encodings: every byte is ASCII, the meaning depends on the shift state of the decoder
+             'iso2022_jp', 'iso2022_kr', 'hz', 'utf-7']
 
 POOLS = {
     'ascii': u'ab c\r\n',
@@ -15,6 +17,7 @@ POOLS = {
     'three': u'€あ中☃',
     'four': u'\U0001f600\U00010348\U0001f40d',
     'cjk': u'あア中文Ａ',
+    'kr': u'한국어',
 }
 
 
@@ -46,8 +49,10 @@ def gen_text(rng, enc, n):
     pools = ['ascii']
     if enc in ('latin-1', 'cp1252', 'cp437'):
         pools += ['two']
-    elif enc in ('shift_jis', 'euc_jp'):
+    elif enc in ('shift_jis', 'euc_jp', 'iso2022_jp', 'hz'):
         pools += ['cjk']
+    elif enc == 'iso2022_kr':
+        pools += ['kr']
     else:
         pools += ['two', 'three', 'four', 'cjk']
     out = []
@@ -93,15 +98,18 @@ def generate(rng):
     if tr in ('fd', 'pty') and rng.random() < 0.35:
         scn['async'] = True          # the asyncio path: awaited expect under the virtual-time loop
         scn['drain'] = rng.choice(['expect_eof', 'expect_each'])
+    if scn.get('use_poll') and scn.get('transport') in ('pty', 'fd') and rng.random() < 0.3:
+        scn['many_fds'] = True      # > 1024 descriptors open: select() would raise, every wait must go through poll
     return scn
 
 
 def enumerate_scenarios(tier, seed):
     """Every single cut offset for short texts x encodings x transports."""
     out = []
-    samples = [u'a\xe9b', u'€', u'x\U0001f600y', u'あ中', u'\xe9€\U0001f40d']
+    samples = [u'a\xe9b', u'€', u'x\U0001f600y', u'あ中', u'\xe9€\U0001f40d', u'ab あ cd', u'x中y']
     trs = ['fd', 'pty', 'sock', 'popen']
-    for enc in ['utf-8', 'utf-16', 'utf-16-le', 'utf-32', 'shift_jis', 'gb18030', 'euc_jp', 'utf-8-sig', 'latin-1']:
+    for enc in ['utf-8', 'utf-16', 'utf-16-le', 'utf-32', 'shift_jis', 'gb18030', 'euc_jp', 'utf-8-sig', 'latin-1',
+                'iso2022_jp', 'hz', 'utf-7']:
         for text in samples:
             if not encodable(text, enc):
                 continue
